@@ -404,6 +404,21 @@ func (n *Node) ExecAt(shard uint32, c Call) *Leg {
 	return n.run(SideDest, shard, c, nil, nil, n.W.Shards[shard].Get(c.Recipient))
 }
 
+// ExecSenderAt runs a sender leg on a given shard whatever the addresses map to (used for the
+// metachain-node configuration): the sender account is taken from that shard, the destination
+// account too when the shard's coordinator says it is local.
+func (n *Node) ExecSenderAt(shard uint32, c Call, dstLocal bool) *Leg {
+	sh := n.W.Shards[shard]
+	snd := sh.Get(c.Caller)
+	var dst *world.Account
+	if bytes.Equal(c.Caller, c.Recipient) {
+		dst = snd
+	} else if dstLocal {
+		dst = sh.Get(c.Recipient)
+	}
+	return n.run(SideSender, shard, c, nil, snd, dst)
+}
+
 // Deliver executes the destination leg of in-flight message i (index into Pool) and removes it.
 func (n *Node) Deliver(i int) *Leg {
 	m := n.Pool[i]
